@@ -1,6 +1,6 @@
 #!/bin/sh
 # usage: tools/seedcheck.sh <patch.diff> [property ...]   (default: every claimed property)
-# Applies a seeded change to /repo, runs the quick checks, prints which fire, and reverts the tree.
+# Applies a change to /repo, runs the quick checks in one process, prints what fires, reverts the tree.
 set -u
 PATCH="$1"; shift
 cd /repo || exit 2
@@ -10,12 +10,6 @@ trap 'git -C /repo checkout -- . ; git -C /repo clean -fdq' EXIT
 PROPS="$*"
 if [ -z "$PROPS" ]; then PROPS=$(python3 -c "import json;print(' '.join(c['property_id'] for c in json.load(open('/verif/MANIFEST.json'))['checks']))"); fi
 OUT=$(mktemp -d)
-/verif/bin/hagcheck -property "$(echo $PROPS | tr " " ",")" -tier quick -out "$OUT" > "$OUT/all.log" 2>&1
-awk "/^hagcheck property=/{p=\$2} /^== /{print} /rule=|^UNDECIDED/{print}" "$OUT/all.log" | sed "s/^ *//" | cut -c1-260 | grep -v "^== .* exit=0" | sort -u | head -60
-for p in __NONE__; do
-  /verif/bin/hagcheck -property $p -tier quick -out "$OUT" > "$OUT/$p.log" 2>&1; code=$?
-  if [ $code -ne 0 ]; then
-    echo "== $p exit=$code"; grep "rule=\|^UNDECIDED" "$OUT/$p.log" | sed 's/^ *//' | cut -c1-260 | sort -u | head -8
-  fi
-done
+/verif/bin/hagcheck -property "$(echo $PROPS | tr ' ' ',')," -tier quick -out "$OUT" > "$OUT/all.log" 2>&1
+awk '/^hagcheck property=/{split($2,a,"="); p=a[2]} /rule=[A-Za-z0-9-]+ site=/{sub(/^ +/,""); print p": "$0} /^UNDECIDED/{print}' "$OUT/all.log" | cut -c1-250 | sort -u
 rm -rf "$OUT"
